@@ -102,8 +102,12 @@ impl Rig {
             }
             self.out.hash = mix3(self.out.hash, v, fresh as u64);
         }
+        // heartbeats travel in the digests of SYNs and of SYN-ACKs (a relay answering us): alternate the carrier
+        let as_synack = self.step % 3 == 0;
+        self.out.c.inc(if as_synack { "digests_in_synacks" } else { "digests_in_syns" });
         for (node, d) in [(&mut self.main, &d_main), (&mut self.twin, &d_twin)] {
-            match catch(|| feed(&mut node.cc, &syn_bytes("c", d))) {
+            let bytes = if as_synack { synack_bytes(d, &[]) } else { syn_bytes("c", d) };
+            match catch(|| feed(&mut node.cc, &bytes)) {
                 Ok(Ok(_)) => {}
                 Ok(Err(e)) => self.out.findings.push(Finding::new(&["C08"], "fd.syn_rejected", format!("{}: crafted SYN rejected: {e}", self.ctx))),
                 Err(p) => self.out.findings.push(Finding::new(&["C10", "C11", "C09"], "fd.panic", format!("{}: processing a digest panicked: {p}", self.ctx))),
